@@ -221,10 +221,30 @@ func mutateTiles(r *core.Rng, a []c20Tile, maxLen int) ([]c20Tile, string) {
 }
 
 func (C20) Gen(r *core.Rng, tier string, emit func(string)) {
-	if tier == "thorough" {
-		emit = cliDup(emit, []string{"sync", "mksync"}, 5, 150)
-	} else {
-		emit = cliDup(emit, []string{"sync", "mksync"}, 5, 25)
+	{
+		// the same cases through the real binaries: separate budgets for makesync, fault-free syncs and syncs
+		// against a misbehaving origin (a sync that FAILS is where exit status and clean-up matter)
+		budget := map[string]int{"mksync": 6, "sync": 9, "fault": 10}
+		if tier == "thorough" {
+			budget = map[string]int{"mksync": 40, "sync": 50, "fault": 60}
+		}
+		inner := emit
+		emit = func(line string) {
+			inner(line)
+			cat := ""
+			if strings.HasPrefix(line, "mksync ") {
+				cat = "mksync"
+			} else if strings.HasPrefix(line, "sync ") {
+				cat = "sync"
+				if f := strings.Fields(line); len(f) > 3 && f[3] != "-" {
+					cat = "fault"
+				}
+			}
+			if cat != "" && budget[cat] > 0 && lineHash(line)%3 == 0 {
+				budget[cat]--
+				inner("cli" + line)
+			}
+		}
 	}
 	nSync, nMk, nFault, nSmall := 70, 30, 90, 60
 	if tier == "thorough" {
@@ -321,6 +341,24 @@ func (C20) Gen(r *core.Rng, tier string, emit func(string)) {
 			fi = 4 + r.Intn(2) // the request for the tile ranges (after .sync, HEAD, first 16 KiB, metadata[, leaves])
 		}
 		emit(fmt.Sprintf("sync %d %d %s:%d %s %s # %s", 1+r.Intn(3), dry, fk, fi, hexs(a), hexs(b), kind))
+	}
+	// a metadata section that STARTS inside the first 16 KiB and ends beyond it (and one that ends exactly at the mark)
+	for i := 0; i < 4; i++ {
+		ta := randTiles(r, 5+r.Intn(30), 300)
+		tb, kind := mutateTiles(r, ta, 300)
+		if len(tb) == 0 {
+			tb = ta
+		}
+		a := clusteredFromTiles(r, ta, true, 0, 8, 10+r.Intn(30)).bytes
+		ml := 16000 + r.Intn(3000)
+		bb := clusteredFromTiles(r, tb, true, 0, 8, ml)
+		if i == 3 {
+			// end of the metadata exactly at byte 16384
+			if d := 16384 - int(bb.header.MetadataOffset+bb.header.MetadataLength); ml+d > 0 {
+				bb = clusteredFromTiles(r, tb, true, 0, 8, ml+d)
+			}
+		}
+		emit(fmt.Sprintf("sync %d 0 - %s %s # bigmeta:%s", 1+r.Intn(3), hexs(a), hexs(bb.bytes), kind))
 	}
 	// directories larger than the first 16 KiB: the leaf section is a download of its own (and so is its failure)
 	nBig := 1
